@@ -1211,7 +1211,7 @@ func (ru *c19Run) observe(c *Ctx, reuse bool) map[string]any {
 		obs["hoverAnswers"] = err == nil && h != nil
 		cur := srv.VerifGetSettings()
 		wi := int64(cur.Formatting.IndentSize)
-		if cur.Features.InlineCompletion && wi > 1000 && wi < 1<<50 {
+		if wi > 1000 && wi < 1<<50 {
 			obs["inline"] = "skipped"
 		} else {
 			u2 := protocol.DocumentURI("file:///c19/inline.journal")
